@@ -45,6 +45,25 @@ def is_repo_class(c):
     return bool(f) and os.path.realpath(f).startswith(os.path.realpath(extract.REPO) + os.sep)
 
 
+class Rewrite:
+    """result of a proof annotation (asserts_after / asserts_after_in): `the variable just assigned equals this simpler value`;
+    scalars, or concrete-shape arrays (NArr) compared item by item"""
+
+    def __init__(self, value):
+        self.value = value
+
+    def equation(self, cur):
+        a, b = cur, self.value
+        if isinstance(a, NArr) and isinstance(b, NArr):
+            if a.shape != b.shape:
+                return False
+            return z3.And(*[to_z3(x, "real") == to_z3(y, "real") for x, y in zip(a.items, b.items)])
+        if isinstance(a, NArr) or isinstance(b, NArr):
+            return False
+        k = "real" if "real" in (kind_of(a), kind_of(b)) else kind_of(a)
+        return to_z3(a, k) == to_z3(b, k)
+
+
 class Interp(Engine):
     # ---------------------------------------------------------------- lookup
     def func_from_py(self, pyfunc, defcls=None):
@@ -661,7 +680,21 @@ class Interp(Engine):
             for j, cl in enumerate(ann.get(nm, [])):
                 lab, text = split_label(cl, f"a{j}")
                 self.cur_frame = fr
-                val = eval_clause(self, text, self.visible_vars(), fr.globs, old_vars=self.top_old, extra=self.spec_extra)
+                if callable(text):
+                    self.spec_mode += 1
+                    try:
+                        val = text(self, dict(self.visible_vars()), self.top_old)
+                    finally:
+                        self.spec_mode -= 1
+                    if isinstance(val, Rewrite):
+                        # proved-equal rewriting: the obligation `current value == simpler value` is emitted, then the local is
+                        # rebound to the simpler value (sound: replacing a value by one that is equal under the path condition)
+                        self.prove(f"{c.short}/annot/{where}after-{nm}/{lab}", val.equation(fr.vars[nm]), "annotation")
+                        fr.vars[nm] = val.value
+                        continue
+                    val = self.truth(val)
+                else:
+                    val = eval_clause(self, text, self.visible_vars(), fr.globs, old_vars=self.top_old, extra=self.spec_extra)
                 self.prove(f"{c.short}/annot/{where}after-{nm}/{lab}", val, "annotation")
 
     def ex_AnnAssign(self, s, fr):
